@@ -48,6 +48,10 @@ CHECKS = {
    technique='symbolic execution of lowered-and-compiled function arrays with per-point z3-symbolic operands vs the same NumPy function dispatched onto a symbolic NumPy model, per-element SMT equivalence; operation table read from function.HANDLED_FUNCTIONS',
    text='Every entry of the real dispatch table (78 entries; sinc, eig, eigh declined) plus indexing and operators is exercised with several call signatures (broadcasting, type promotion, axes, negative indices, slices with steps, ellipsis, newaxis, index arrays, depth-2 compositions) at points_shape (), (2,) [(2,2) thorough]: the value at every point equals NumPy applied to the operand values at that point for ALL operand values, with the shape and kind real NumPy produces; shape-incompatible operand combinations are rejected when built.',
    note='The oracle is the SArray model of NumPy (conformance-tested against real NumPy on concrete data).  Complex transcendental functions, sinc, eig/eigh are not modelled.  Point axes are generic axes of the lowering protocol; topologies/samples are the subject of C08/C09/C11.  A dispatch-table entry without call signatures makes the check exit with a harness error.'),
+ 'C13': dict(level='translation_validation', design='4/C13',
+   technique='symbolic execution of lowered-and-compiled function arrays on z3-symbolic argument values; per-element SMT equivalence with the definition (symbolic substitution, dual-number tangent, identity); spellings compared pairwise',
+   text='For 10 functionals (polynomial degree<=3, transcendental, rational, and integrals over a 2-element sample so that replacement inside lowered loops is exercised) and replacement maps including swaps and chains: replace(f, x:g)(A) = f(A with x:=g(A)); linearize and derivative equal the dual-number tangent; factor(f)=f (1e-6 margin); field/dotarg equal their einsum definition - for ALL argument values.  Every documented spelling of an argument specification (dict, string, tuple of strings, list of pairs, Argument values/keys) denotes the same replace and linearize result.',
+   note='Wrong shape/dtype rejection is an enumerated list of 9 concrete misuse cases (auxiliary, not a solver claim).  Oracle for tangents of mesh-level functionals falls back to the script generated without simplification/optimisation where the interpreter has no denotation for a node (flagged self-referential).'),
 }
 
 NOT_APPLICABLE = {
